@@ -24,9 +24,26 @@ theorem step_yields_field_values (name snake : String) (id : Nat) (m : MsgDesc) 
 theorem step_yields_primitive_value (name snake : String) (id : Nat) (m : MsgDesc) (i : Nat) (f : FieldDesc)
     (hg : gateOk name m.dateLike = true)
     (hs : resolveSlot m.names m.isReference m.dateLike name snake = .field i)
-    (hf : m.fields[i]? = some f) (hmsg : f.isMsg = false) (hp : m.primOk = true) :
+    (hf : m.fields[i]? = some f) (hmsg : f.isMsg = false) (hp : m.primOk = true) (hv : m.noValue = false) :
     fieldStep name snake id m = .ok [.prim id] := by
-  simp [fieldStep, hg, hs, hf, emit, hmsg, hp]
+  simp [fieldStep, hg, hs, hf, emit, hmsg, hp, hv]
+
+/-- a primitive that has an id or extensions but NO VALUE yields nothing for its value — not the zero value of
+    the proto — whether the value is a field of the message or the rendered text of a date / time -/
+theorem valueless_primitive_has_no_value (name snake : String) (id : Nat) (m : MsgDesc) (hv : m.noValue = true)
+    (hg : gateOk name m.dateLike = true) :
+    (∀ i f, resolveSlot m.names m.isReference m.dateLike name snake = .field i → m.fields[i]? = some f → f.isMsg = false →
+      fieldStep name snake id m = .ok []) ∧
+    (resolveSlot m.names m.isReference m.dateLike name snake = .synthValue → fieldStep name snake id m = .ok []) := by
+  refine ⟨fun i f hs hf hmsg => ?_, fun hs => ?_⟩
+  · simp [fieldStep, hg, hs, hf, emit, hmsg, hv]
+  · simp [fieldStep, hg, hs, hv]
+
+/-- the marker google/fhir's parser puts on such a primitive is never yielded as an element: the extensions of the
+    element are the other values of the field, in order -/
+theorem marker_is_no_element (pre post : List Child) (k : Nat) :
+    (pre ++ .marker k :: post).flatMap unwrapChild = pre.flatMap unwrapChild ++ post.flatMap unwrapChild := by
+  simp [List.flatMap_append, unwrapChild]
 
 /-- choice elements are reached by their base name and yield the chosen value -/
 theorem choice_yields_chosen (id c : Nat) : unwrapChild (.choice id (some c)) = [.node c] := rfl
@@ -152,10 +169,10 @@ theorem resolves_as_schema (m : MsgDesc) (n : NMsg) (hn : m.names = rowNames n) 
   rw [hn, hr, hd]
 
 example : fieldStep "deceased" "deceased" 0
-    ⟨"Patient", false, false, none, false, [⟨"deceased", "deceased", false, true, [.choice 5 (some 6)]⟩]⟩ = .ok [.node 6] := by decide
-example : fieldStep "nosuch" "nosuch" 0 ⟨"Patient", false, false, none, false, []⟩ = .err "invalid-field" := by decide
+    ⟨"Patient", false, false, none, false, false, [⟨"deceased", "deceased", false, true, [.choice 5 (some 6)]⟩]⟩ = .ok [.node 6] := by decide
+example : fieldStep "nosuch" "nosuch" 0 ⟨"Patient", false, false, none, false, false, []⟩ = .err "invalid-field" := by decide
 example : fieldStep "lethalDose50" "lethal_dose_50" 0
-    ⟨"X", false, false, none, false, [⟨"lethal_dose50", "lethalDose50", false, true, [.plain 3]⟩]⟩ = .ok [.node 3] := by decide
+    ⟨"X", false, false, none, false, false, [⟨"lethal_dose50", "lethalDose50", false, true, [.plain 3]⟩]⟩ = .ok [.node 3] := by decide
 
 /-! ### whole paths: the composition of steps -/
 
@@ -194,9 +211,9 @@ theorem path_on_empty (fs : List (Out → Res (List Out))) : evalPath fs [] = .o
 
 /-- a two-step path on a small tree: `name.given` over two names, in order, flattened -/
 example :
-    let given (i : Nat) (vs : List Child) : MsgDesc := ⟨"HumanName", false, false, none, false, [⟨"given", "given", true, true, vs⟩]⟩
+    let given (i : Nat) (vs : List Child) : MsgDesc := ⟨"HumanName", false, false, none, false, false, [⟨"given", "given", true, true, vs⟩]⟩
     let t : Tree := fun
-      | 0 => some ⟨"Patient", false, false, none, false, [⟨"name", "name", true, true, [.plain 1, .plain 2]⟩]⟩
+      | 0 => some ⟨"Patient", false, false, none, false, false, [⟨"name", "name", true, true, [.plain 1, .plain 2]⟩]⟩
       | 1 => some (given 1 [.plain 10, .plain 11])
       | 2 => some (given 2 [.plain 20])
       | _ => none
